@@ -3,27 +3,31 @@ import PallasVerif.Props.C34
 import PallasVerif.Props.C35
 import PallasVerif.Props.C37
 /-!
-# C38 — Each implemented ledger rule rejects transactions that break only it  (level: `other`)
+# C38 — Each implemented ledger rule rejects transactions that break only it  (level: `proof`, partial)
 
 `Model/Rules.lean` is the rule structure of the five era validators: the ordered `check_*` list of each
-`validate_<era>_tx` with first-failure semantics, and stated predicates for nine rules (non-empty inputs, inputs /
-collateral / reference inputs in the UTxO, validity interval, size, minimum lovelace, value size, network ids,
-minimum fee + collateral rules, auxiliary-data hash). For every era and every `View`:
+`validate_<era>_tx` with first-failure semantics, and a stated predicate for every rule the property names:
+non-empty inputs, inputs / collateral / reference inputs in the UTxO, validity interval, size, minimum lovelace, value
+size, network ids, minimum fee + collateral rules, auxiliary-data hash, minting-policy witnesses, script and datum
+witnesses, redeemer coverage, language availability, script-integrity hash, and (linked models of C34 / C37 / C35) value
+preservation, execution units, key witnesses and required signers. For every era and every `View`:
 
 * `accept_implies_all_rules` — accepted ⇒ every rule of the era's list holds (stated predicate, or the observed
-  verdict for the rules without a stated predicate);
+  verdict for the few rules without one: certificates, Byron);
 * `violates_rule_rejected` — a view on which some rule of the era's list fails is rejected (this is the property:
   "a modification that violates just that rule makes validation fail" — *any* failing rule suffices);
 * `first_failure` — the error reported is that of the first failing rule in source order;
-* `accepted_*` — what acceptance means, rule by rule, in terms of the observations (the readable form of the above
-  for the stated rules); the collateral clause holds only for Plutus scripts in the witness set
-  (`accepted_collateral_partial`; `FullCollateralStatement` is false on the model of the code:
-  `full_collateral_fails_at_witness` — known finding, the repair breaks two pinned tests);
+* `accepted_*` — what acceptance means, rule by rule, in terms of the observations; the collateral clause holds only for
+  Plutus scripts in the witness set (`accepted_collateral_partial`; `FullCollateralStatement` is false on the model of
+  the code: `full_collateral_fails_at_witness` — known finding, the repair breaks two pinned tests);
+* thresholds — `collateral_amount_iff` (`fee * pct ≤ paid * 100 ↔ ⌈fee * pct / 100⌉ ≤ paid`, all `fee`, `pct`),
+  `truncated_quotient_is_weaker`, `balanceAmounts_iff`, `alonzoAmounts_iff`, `*_boundary`;
+* `minting_subsumed` — from Alonzo on `check_minting` follows from the needed-scripts check;
 * `stated_rules_cover` — which rules of each era are stated here.
 
-What is **not** proved: that the observations of a `View` are what the Rust code computes (tie: stream `rules`, per
-rule through `verif_hooks::rule_verdicts` and through `validate_txs`), and the predicates of the rules listed in the
-module header of `Model/Rules.lean` as external.
+What is **not** proved (hence *partial*): that the observations of a `View` are what the Rust code computes (tie: stream
+`rules`, per rule through `verif_hooks::rule_verdicts` and through `validate_txs`), and the predicates of the rules listed
+in the module header of `Model/Rules.lean` as external (certificates, Byron, value rule of transactions with certificates).
 -/
 namespace PallasVerif.Props.C38
 open PallasVerif.Rules
@@ -239,6 +243,89 @@ theorem accepted_aux_data (era : Era) (v : View) (hb : era ≠ .byron) (h : vali
   simp only [verdict, (stated_post_byron era v hb).2.2.2.2.2.2.2, if_true, auxData] at this
   cases h1 : v.auxHashPresent <;> cases h2 : v.auxPresent <;> simp_all
 
+/-! ## Thresholds: every arithmetic rule accepts exactly from its boundary on -/
+
+/-- the least collateral that covers `pct` percent of `fee`: `⌈fee * pct / 100⌉` -/
+def requiredCollateral (fee pct : Nat) : Nat := (fee * pct + 99) / 100
+
+/-- the amount rule as stated in the model (`fee * pct ≤ paid * 100`, no division) is `paid ≥ ⌈fee * pct / 100⌉` -/
+theorem collateral_amount_iff (fee pct paid : Nat) : fee * pct ≤ paid * 100 ↔ requiredCollateral fee pct ≤ paid := by
+  unfold requiredCollateral; generalize fee * pct = k; omega
+
+theorem collateral_accepts_at_required (fee pct : Nat) : fee * pct ≤ requiredCollateral fee pct * 100 :=
+  (collateral_amount_iff fee pct _).mpr (Nat.le_refl _)
+
+theorem collateral_rejects_one_below (fee pct : Nat) (h : 0 < fee * pct) : ¬ fee * pct ≤ (requiredCollateral fee pct - 1) * 100 := by
+  unfold requiredCollateral; generalize fee * pct = k at *; omega
+
+/-- a rule stated with the truncated quotient `fee * pct / 100` is strictly weaker: it accepts one lovelace less whenever
+    `fee * pct` is not a multiple of 100 -/
+theorem truncated_quotient_is_weaker (fee pct : Nat) (h : fee * pct % 100 ≠ 0) :
+    fee * pct / 100 ≤ requiredCollateral fee pct - 1 ∧ ¬ fee * pct ≤ (requiredCollateral fee pct - 1) * 100 := by
+  unfold requiredCollateral; generalize fee * pct = k at *; omega
+
+/-- Babbage / Conway: with no (or a matching) annotation the balance rule holds exactly from `requiredCollateral` on -/
+theorem balanceAmounts_iff (v : View) (paid : Nat) (hp : v.paidCollateral = some paid) :
+    balanceAmounts v = true ↔ requiredCollateral v.fee v.collateralPercentage ≤ paid ∧ (∀ t, v.totalCollateral = some t → paid = t) := by
+  unfold balanceAmounts
+  rw [hp]
+  simp only [Bool.and_eq_true, decide_eq_true_eq, collateral_amount_iff]
+  constructor
+  · rintro ⟨h1, h2⟩
+    refine ⟨h1, fun t ht => ?_⟩
+    simpa [ht] using h2
+  · rintro ⟨h1, h2⟩
+    refine ⟨h1, ?_⟩
+    cases ht : v.totalCollateral with
+    | none => rfl
+    | some t => simpa using h2 t ht
+
+/-- Alonzo: every inspected collateral input holds at least `requiredCollateral` and no assets -/
+theorem alonzoAmounts_iff (v : View) (cs : List CollView) :
+    alonzoAmounts v cs = true ↔ ∀ c ∈ cs, c.lookedAt = true → requiredCollateral v.fee v.collateralPercentage ≤ c.coin ∧ c.hasAssets = false := by
+  unfold alonzoAmounts
+  simp only [List.all_eq_true, Bool.or_eq_true, Bool.not_eq_true', Bool.and_eq_true, decide_eq_true_eq, collateral_amount_iff]
+  constructor
+  · intro h c hc hl
+    rcases h c hc with h1 | h1
+    · rw [hl] at h1; cases h1
+    · exact h1
+  · intro h c hc
+    cases hl : c.lookedAt with
+    | false => exact Or.inl rfl
+    | true => exact Or.inr (h c hc hl)
+
+/-- minimum fee, transaction size, validity interval, value size, minimum lovelace: the comparisons are non-strict at the
+    boundary value itself and fail one past it -/
+theorem min_fee_boundary (v : View) : minFee { v with fee := v.minfeeB + v.minfeeA * v.size } = true ∧
+    (0 < v.minfeeB + v.minfeeA * v.size → minFee { v with fee := v.minfeeB + v.minfeeA * v.size - 1 } = false) := by
+  refine ⟨by simp [minFee], fun h => ?_⟩
+  simp only [minFee, decide_eq_false_iff_not]
+  generalize v.minfeeA * v.size = k at *; omega
+
+theorem tx_size_boundary (v : View) : txSize { v with maxSize := v.size } = true ∧ (0 < v.size → txSize { v with maxSize := v.size - 1 } = false) := by
+  refine ⟨by simp [txSize], fun h => ?_⟩
+  simp only [txSize, decide_eq_false_iff_not]; omega
+
+theorem upper_bound_boundary (v : View) (t : Nat) : upperOk { v with ttl := some t, slot := t } = true ∧ upperOk { v with ttl := some t, slot := t + 1 } = false := by
+  simp [upperOk]
+
+theorem lower_bound_boundary (v : View) (s : Nat) : lowerOk { v with validityStart := some (s + 1), slot := s + 1 } = true ∧
+    lowerOk { v with validityStart := some (s + 1), slot := s } = false := by
+  simp [lowerOk]
+
+theorem value_size_boundary (v : View) (o : OutView) : valSize { v with outputs := [o], maxValueSize := o.words } = true ∧
+    (0 < o.words → valSize { v with outputs := [o], maxValueSize := o.words - 1 } = false) := by
+  refine ⟨by simp [valSize], fun h => ?_⟩
+  simp only [valSize, List.all_cons, List.all_nil, Bool.and_true, decide_eq_false_iff_not]; omega
+
+theorem min_lovelace_boundary (era : Era) (v : View) (o : OutView) :
+    minLovelace era { v with outputs := [{ o with lovelace := minRequired era v o }] } = true ∨ era = .shelleyMA := by
+  cases era
+  · exact Or.inl (by simp [minLovelace, minRequired])
+  · exact Or.inr rfl
+  all_goals exact Or.inl (by simp [minLovelace, minRequired])
+
 /-! ## The script rules -/
 
 /-- the rules of the Alonzo / Babbage / Conway lists that are stated for every view -/
@@ -279,6 +366,17 @@ theorem accepted_scripts (era : Era) (v : View) (he : eraHasCollateral era = tru
     by_cases hr : s ∈ refScriptsOf era v.scripts
     · exact Or.inl hr
     · exact Or.inr (h3 s ⟨hs, by simp [hr]⟩)
+
+/-- from Alonzo on `check_minting` is implied by the needed-scripts part of `check_witness_set` (same predicate on the minted
+    policies, same error): dropping the separate call from an Alonzo+ validator changes nothing observable, only Shelley-MA
+    depends on it -/
+theorem minting_subsumed (era : Era) (v : View) (h : neededScripts era v = true) : minting era v = true := by
+  simp only [neededScripts, Bool.and_eq_true, List.all_eq_true, Bool.or_eq_true, List.contains_iff_mem, List.mem_filter] at h
+  simp only [minting, List.all_eq_true, Bool.or_eq_true, List.contains_iff_mem]
+  intro p hp
+  rcases h.1.2 p hp with ⟨a, _⟩ | b
+  · exact Or.inl a
+  · exact Or.inr b
 
 /-- redeemer coverage: the redeemer pointers of the witness set are exactly the pointers of the phase-2 scripts -/
 theorem accepted_redeemers (era : Era) (v : View) (he : eraHasCollateral era = true) (h : validate era v = none) :
